@@ -145,7 +145,7 @@ Fixpoint tbl_b (top : bool) (t : tbl) {struct t} : bool :=
                   | INone => false
                   | IValue _ => pair_b true (snd kv)
                   | ITable sub =>
-                    tbl_b false sub && (if t_dotted sub then has_line sub else shown sub || prints_header sub)
+                    tbl_b false sub && (if t_dotted sub then has_line sub || prints_header sub else shown sub || prints_header sub)
                   | IAot ts _ => nonempty ts && forallb (fun e => negb (t_dotted e) && tbl_b false e) ts
                   end) items
   end.
